@@ -21,6 +21,7 @@ package main
 // node; it reports `small-oracle-inconsistent` if the real decisions are not such a function).
 
 import (
+	"bytes"
 	"encoding/hex"
 	"fmt"
 	"os"
@@ -68,7 +69,7 @@ func sShape(in *sIntern, tr *trie.Trie) string {
 		case 'f':
 			sb = append(sb, p+"f"+sFlags(in, n))
 		case 'v':
-			sb = append(sb, p+"v"+hx(n.Value))
+			sb = append(sb, p+"v"+sVal(n.Value))
 		case 'h':
 			sb = append(sb, p+in.id(n.Hash))
 		}
@@ -101,6 +102,77 @@ func sDecisions(tr *trie.Trie) (string, int, int) {
 	return strings.Join(sb, ","), nh, ne
 }
 
+// values longer than 40 bytes are printed as first 8 bytes + length (both sides)
+func sVal(v []byte) string {
+	if len(v) > 40 {
+		return fmt.Sprintf("%s..%d", hex.EncodeToString(v[:8]), len(v))
+	}
+	return hx(v)
+}
+
+func sProof(v []byte, err error, nodes int) string {
+	if err != nil {
+		m := err.Error()
+		switch {
+		case strings.Contains(m, "missing"):
+			return fmt.Sprintf("err missing %d", nodes)
+		case strings.Contains(m, "does not hash"):
+			return fmt.Sprintf("err mismatch %d", nodes)
+		case strings.HasPrefix(m, "bad proof node"):
+			return fmt.Sprintf("err bad %d", nodes)
+		}
+		return "err " + m
+	}
+	if v == nil {
+		return fmt.Sprintf("nil n=%d", nodes)
+	}
+	return fmt.Sprintf("v=%s n=%d", sVal(v), nodes)
+}
+
+func sProofClass(out string) string {
+	f := strings.Fields(out)
+	switch {
+	case strings.HasPrefix(out, "v="):
+		return "value"
+	case strings.HasPrefix(out, "nil"):
+		return "absent"
+	case len(f) >= 2:
+		return f[0] + "-" + f[1]
+	}
+	return out
+}
+
+// a reader that is NOT content-addressed: it answers the hash `at` with `blob`
+type forgingReader struct {
+	inner store.DatabaseReader
+	at    []byte
+	blob  []byte
+}
+
+func (r *forgingReader) Get(flg uint32, key []byte) ([]byte, error) {
+	if bytes.Equal(key, r.at) {
+		return r.blob, nil
+	}
+	return r.inner.Get(flg, key)
+}
+func (r *forgingReader) Has(flg uint32, key []byte) (bool, error) { return r.inner.Has(flg, key) }
+
+type keyRecorder struct {
+	inner store.DatabaseReader
+	keys  [][]byte
+	vals  [][]byte
+}
+
+func (r *keyRecorder) Get(flg uint32, key []byte) ([]byte, error) {
+	v, err := r.inner.Get(flg, key)
+	if v != nil {
+		r.keys = append(r.keys, append([]byte{}, key...))
+		r.vals = append(r.vals, append([]byte{}, v...))
+	}
+	return v, err
+}
+func (r *keyRecorder) Has(flg uint32, key []byte) (bool, error) { return r.inner.Has(flg, key) }
+
 func sErr(err error) string {
 	if _, ok := err.(*trie.MissingNodeError); ok {
 		return "err missing"
@@ -127,11 +199,15 @@ func c17Store(c *Ctx) {
 	}
 	defer os.RemoveAll(dir)
 	cdb := store.NewChainDataBase(dir)
-	defer cdb.Close()
+	defer func() { cdb.Close() }()
 
 	nsc := c.N / 3
 	if nsc < 20 {
 		nsc = 20
+	}
+	restarts, maxRestarts := 0, 6
+	if c.Tier == "thorough" {
+		maxRestarts = 40
 	}
 	for sc := 0; sc < nsc; sc++ {
 		fixed := 3
@@ -142,8 +218,54 @@ func c17Store(c *Ctx) {
 			fixed = 1
 		}
 		pool := genKeyPool(c, fixed, 3+c.Rnd.Intn(18))
+		mode := "short-keys"
+		bigVals, batch := false, false
+		switch r := c.Rnd.Intn(20); {
+		case r < 5: // 32-byte keys (65 nibbles, what SecureTrie produces), some with long shared prefixes
+			mode = "32-byte-keys"
+			pool = nil
+			n := 3 + c.Rnd.Intn(14)
+			for len(pool) < n {
+				k := make([]byte, 32)
+				if len(pool) > 0 && c.Rnd.Intn(2) == 0 {
+					copy(k, pool[c.Rnd.Intn(len(pool))])
+					for j := c.Rnd.Intn(32); j < 32; j++ {
+						if j == 31 || c.Rnd.Intn(3) == 0 {
+							k[j] = byte(c.Rnd.Intn(256))
+						}
+					}
+				} else {
+					c.Rnd.Read(k)
+				}
+				pool = append(pool, k)
+			}
+		case r < 8:
+			mode = "long-values" // >= 56 bytes: the RLP long-string form
+			bigVals = true
+		}
+		if (sc == 7 || (c.Tier == "thorough" && sc%499 == 11)) && mode != "32-byte-keys" {
+			// enough data that one TrieDatabase.Commit exceeds IdealBatchSize (100 KiB): the batch is split
+			mode = "batch-split"
+			batch = true
+			pool = genKeyPool(c, 3, 110)
+		}
+		c.Count("s:mode=" + mode)
 		salt := []byte{byte(sc >> 8), byte(sc), 0x5a}
 		val := func() []byte {
+			if batch && c.Rnd.Intn(8) != 0 {
+				v := append([]byte{}, salt...)
+				for i, n := 0, 2400+c.Rnd.Intn(800); i < n; i++ {
+					v = append(v, byte(c.Rnd.Intn(256)))
+				}
+				return v
+			}
+			if bigVals && c.Rnd.Intn(3) == 0 {
+				v := append([]byte{}, salt...)
+				for i, n := 0, 53+c.Rnd.Intn(300); i < n; i++ {
+					v = append(v, byte(c.Rnd.Intn(256)))
+				}
+				return v
+			}
 			switch c.Rnd.Intn(8) {
 			case 0:
 				return nil
@@ -192,9 +314,122 @@ func c17Store(c *Ctx) {
 			return m
 		}
 		nops := 12 + c.Rnd.Intn(60)
-		for i := 0; i < nops; i++ {
+		if batch {
+			nops = 240
+		}
+		restarted, abort := false, false
+		for i := 0; i < nops && !abort; i++ {
 			k := pool[c.Rnd.Intn(len(pool))]
-			switch r := c.Rnd.Intn(100); {
+			// rare ops first: cache generation near the uint16 wrap, store restart, proofs
+			x := c.Rnd.Intn(400)
+			if batch && i >= nops-2 {
+				x = 399
+			}
+			if x < 3 {
+				g := uint16(65536 - 1 - c.Rnd.Intn(4))
+				tr.VerifSetCacheGen(g)
+				c.Op(fmt.Sprintf("sgen %d", g), "ok")
+				c.Count("sgen:near-wrap")
+				continue
+			} else if x < 5 && len(roots) > 0 && !restarted && restarts < maxRestarts {
+				// persistence across a real restart of the store: flush, close the ChainDatabase, open
+				// the directory again, re-open the trie by root through the new database
+				rr := roots[len(roots)-1]
+				restarted = true
+				restarts++
+				out := Safe(func() string {
+					if rr.db == tdb {
+						if err := tdb.Commit(rr.h, false); err != nil {
+							return "err " + err.Error()
+						}
+						rr.flushed = true
+					}
+					cdb.Close()
+					cdb = store.NewChainDataBase(dir)
+					ndb := cdb.GetTrieDatabase()
+					nt, err := trie.New(rr.h, ndb)
+					if err != nil {
+						abort = true // the old trie sits on the closed store: the scenario ends here
+						return sErr(err)
+					}
+					nt.SetCacheLimit(limit)
+					tr, tdb = nt, ndb
+					ref = map[string][]byte{}
+					for k, v := range rr.content {
+						ref[k] = v
+					}
+					return "ok " + sShape(in, tr)
+				})
+				c.Op("srestart "+in.id(rr.h[:]), out)
+				c.Count("srestart:" + strings.SplitN(out, " ", 2)[0])
+				if strings.HasPrefix(out, "err") && rr.flushed {
+					c.Fail("c17/restart-missing", fmt.Sprintf("after TrieDatabase.Commit(root), Close and re-opening the store, trie.New(root) fails: %s", out), nil)
+				}
+				for _, o := range roots {
+					o.db = nil // the old pools are gone
+				}
+				continue
+			} else if x < 25 && len(roots) > 0 {
+				rr := roots[len(roots)-1]
+				if c.Rnd.Intn(4) == 0 {
+					rr = roots[c.Rnd.Intn(len(roots))]
+				}
+				if !rr.flushed && c.Rnd.Intn(4) != 0 { // mostly against a flushed root
+					for j := len(roots) - 1; j >= 0; j-- {
+						if roots[j].flushed {
+							rr = roots[j]
+							break
+						}
+					}
+				}
+				rec := &keyRecorder{inner: tdb.DiskDB()}
+				var pv []byte
+				var pn int
+				out := Safe(func() string {
+					v, err, n := trie.VerifyProof(rr.h, k, rec)
+					pv, pn = v, n
+					return sProof(v, err, n)
+				})
+				c.Op(fmt.Sprintf("sverify %s %s", in.id(rr.h[:]), hx(k)), out)
+				c.Count("sverify:" + sProofClass(out))
+				if rr.flushed {
+					want, has := rr.content[string(k)]
+					if (has && !bytes.Equal(pv, want)) || (!has && (pv != nil || strings.HasPrefix(out, "err"))) {
+						if len(rr.content) > 0 {
+							c.Fail("c17/proof-present", fmt.Sprintf("VerifyProof over the flushed database: %s for key %x, content has %x", out, k, want), nil)
+						}
+					}
+				}
+				// forged proof through a reader that is NOT content-addressed: the blob that holds the
+				// value is answered with one altered value byte under the ORIGINAL hash
+				if pv != nil && pn > 0 && len(rec.vals) == pn && bytes.Count(rec.vals[pn-1], pv) == 1 {
+					blob := append([]byte{}, rec.vals[pn-1]...)
+					at := bytes.LastIndex(blob, pv)
+					blob[at+len(pv)-1] ^= 0x01
+					fr := &forgingReader{inner: tdb.DiskDB(), at: rec.keys[pn-1], blob: blob}
+					var fv []byte
+					fout := Safe(func() string {
+						v, err, n := trie.VerifyProof(rr.h, k, fr)
+						fv = v
+						return sProof(v, err, n)
+					})
+					c.Op(fmt.Sprintf("sverifyf %s %s", in.id(rr.h[:]), hx(k)), fout)
+					c.Count("sverifyf:" + sProofClass(fout))
+					if fv != nil && !bytes.Equal(fv, pv) {
+						c.Fail("c17/proof-forged", fmt.Sprintf("VerifyProof returned the altered value %x for key %x (genuine %x) from a reader that is not content-addressed", fv, k, pv), nil)
+					}
+				}
+				continue
+			}
+			r := c.Rnd.Intn(100)
+			if batch && i == nops-2 {
+				r = 70 // commit everything …
+			} else if batch && i == nops-1 {
+				r = 90 // … and flush it in one TrieDatabase.Commit
+			} else if batch && r >= 68 && r < 86 && i < nops-2 {
+				r = 10 // no intermediate commits: the pool grows past IdealBatchSize
+			}
+			switch {
 			case r < 40:
 				v := val()
 				if old, had := ref[string(k)]; had && c.Rnd.Intn(8) == 0 {
@@ -245,14 +480,14 @@ func c17Store(c *Ctx) {
 					}
 					val = "nil"
 					if v != nil {
-						val = hex.EncodeToString(v)
+						val = sVal(v)
 					}
 					return val + " " + sShape(in, tr)
 				})
 				c.Op("sget "+hx(k), out)
 				want := "nil"
 				if v, ok := ref[string(k)]; ok {
-					want = hex.EncodeToString(v)
+					want = sVal(v)
 				}
 				if val != want {
 					c.Fail("c17/store-read", fmt.Sprintf("TryGet(%x) = %s on a partially resolved trie, last write was %s", k, out, want), nil)
@@ -298,12 +533,15 @@ func c17Store(c *Ctx) {
 				c.Op("shash "+dec, out)
 				c.Count("shash")
 			case r < 92:
-				if len(roots) == 0 {
-					continue
+				if len(roots) == 0 || (batch && i < nops-1) {
+					continue // batch-split: one big flush at the end
 				}
 				rr := roots[len(roots)-1]
-				if c.Rnd.Intn(3) == 0 {
+				if c.Rnd.Intn(3) == 0 && !batch {
 					rr = roots[c.Rnd.Intn(len(roots))]
+				}
+				if tdb.Size() > store.IdealBatchSize {
+					c.Count("sflush:pool-over-IdealBatchSize")
 				}
 				out := Safe(func() string {
 					if err := tdb.Commit(rr.h, false); err != nil {
@@ -352,6 +590,9 @@ func c17Store(c *Ctx) {
 		}
 		// final sweep through the partially resolved trie
 		for _, k := range pool {
+			if abort {
+				break
+			}
 			val := ""
 			out := Safe(func() string {
 				v, err := tr.TryGet(k)
@@ -360,14 +601,14 @@ func c17Store(c *Ctx) {
 				}
 				val = "nil"
 				if v != nil {
-					val = hex.EncodeToString(v)
+					val = sVal(v)
 				}
 				return val + " " + sShape(in, tr)
 			})
 			c.Op("sget "+hx(k), out)
 			want := "nil"
 			if v, ok := ref[string(k)]; ok {
-				want = hex.EncodeToString(v)
+				want = sVal(v)
 			}
 			if val != want {
 				c.Fail("c17/store-read", fmt.Sprintf("TryGet(%x) = %s on a partially resolved trie, last write was %s", k, out, want), nil)
